@@ -218,6 +218,66 @@ example :
     let q := [QueEv.rx 5, .rx 6, .flush 1].foldl (fun q e => (Que.step q e).1) Que.init
     (Que.step q (.take 1)).2 = none := by decide
 
+/-- **LUBA / SCI, the other direction — the caller's own answer is not lost**:
+once a task has flushed and written (nobody else holds the transaction lock),
+whatever the receiver queues afterwards, in however many `data_received` calls
+and before the task runs again, the task takes the FIRST byte queued after its
+flush — the value the gateway reported for its command. -/
+theorem routing_queue_complete (q : Que) (t b : Nat) (bs : List Nat) (hn : q.holder = none) :
+    ∃ τ q', ((b :: bs).foldl (fun q x => (q.step (.rx x)).1) (q.step (.flush t)).1).step (.take t)
+      = (q', some (t, some (τ, b))) ∧ q.clock < τ :=
+  Routing.que_complete q t b bs hn
+
+/-- a flush placed AFTER the transmission has been confirmed (the answer may
+already have been queued by then — confirmation and answer in one serial read)
+throws the caller's own answer away: nothing left to take -/
+example :
+    let q := [QueEv.rx 0x84, .flush 1].foldl (fun q e => (Que.step q e).1) Que.init
+    (Que.step q (.take 1)).2 = none ∧ (Que.step q (.giveUp 1)).2 = some (1, none) := by decide
+
+/-- reachable states of the ATX hat's port: the exchange of one `send` is
+bracketed by the lock (`Hat.step` = `Hat.stepWith true`) -/
+inductive HReach : Hat → Prop
+  | init : HReach Hat.init
+  | step {h h' : Hat} {o : Option (Nat × Nat)} (e : HatEv) : HReach h → h.step e = some (h', o) → HReach h'
+
+/-- **ATX hat, several threads on one driver object**: every reply line a
+thread reads answers a frame that this very thread transmitted — the lines
+carry no identification, the lock held from the write until the reply has been
+read is what pairs them. -/
+theorem routing_hat (h h' : Hat) (t t₁ l : Nat) (hr : HReach h)
+    (hs : h.step (.read t) = some (h', some (t₁, l))) : t₁ = t ∧ l = t := by
+  have inv : Routing.HatInv h := by
+    clear hs
+    induction hr with
+    | init => exact Routing.hatInv_init
+    | step e _ hs ih => exact Routing.hatInv_step ih e hs
+  exact Routing.hatInv_read inv hs
+
+/-- … and whenever the lock is free no reply line is pending. -/
+theorem hat_idle_clean (h : Hat) (hr : HReach h) (hn : h.holder = none) : h.lines = [] := by
+  have inv : Routing.HatInv h := by
+    clear hn
+    induction hr with
+    | init => exact Routing.hatInv_init
+    | step e _ hs ih => exact Routing.hatInv_step ih e hs
+  cases hl : h.lines with
+  | nil => rfl
+  | cons l r => have := inv.own l (by rw [hl]; simp); rw [hn] at this; cases this
+
+/-- a lock that brackets the write only (`stepWith false`): thread 2 transmits
+while thread 1's reply is pending and reads thread 1's line -/
+example :
+    let run := fun (h : Option Hat) (e : HatEv) => h.bind (fun h => (Hat.stepWith false h e).map (·.1))
+    let h := [HatEv.acquire 1, .write 1 1, .release 1, .acquire 2, .write 2 1].foldl run (some Hat.init)
+    (h.bind (fun h => Hat.stepWith false h (.read 2))).map (·.2) = some (some (2, 1)) := by decide
+
+/-- the same schedule is not a run of the code: thread 1 cannot leave the lock with its reply unread -/
+example :
+    (([HatEv.acquire 1, .write 1 1].foldl
+        (fun (h : Option Hat) e => h.bind (fun h => (Hat.step h e).map (·.1))) (some Hat.init)).bind
+      (fun h => Hat.step h (.release 1))) = none := by decide
+
 /-! ### non-vacuity -/
 
 example : tridonicAnswer ⟨some 7, false⟩ [.rep 0x73 0 0 0 0, .rep 0x72 0 0 0 0x84]
@@ -233,5 +293,8 @@ example : ((Tri.init 255).run [.alloc, .alloc, .deliver 1 (.rep 0x71 0 0 0 0)]).
     = [⟨255, 0, []⟩, ⟨1, 1, [⟨1, .rep 0x71 0 0 0 0⟩]⟩] := by decide
 example : (([SlotEv.write 1, .report (.rep 2 9)].foldl (fun s e => (Slot.step s e).1) Slot.init).step
     (.wake 1)).2 = some (1, 2, .rep 2 9) := by decide
+/-- a reachable hat state with a pending line, read by the thread that caused it -/
+example : HReach ⟨[1], some 1, 1⟩ ∧ Hat.step ⟨[1], some 1, 1⟩ (.read 1) = some (⟨[], some 1, 0⟩, some (1, 1)) :=
+  ⟨.step (.write 1 1) (.step (.acquire 1) .init rfl) rfl, rfl⟩
 
 end DaliVerif.Props.C16
